@@ -174,6 +174,8 @@ func internalFault(err error, pan interface{}) string {
 }
 
 func checkSource(t ev.TB, test string, p payload, classes []string, funcsHint int) {
+	ev.InFlight(test, p)
+	defer ev.InFlightDone()
 	c := compile(p.Source, p.Modules, p.Inputs)
 	if c.pan != nil {
 		// a compiler panic is C04's subject; here only compiled programs count
